@@ -130,6 +130,32 @@ func Leaf(kind, w, count int, r *rand.Rand) *Node {
 	return n
 }
 
+// InexactF4 makes an F4 leaf constructed from float64 arguments that need rounding to binary32
+// (magnitudes within the binary32 range, so clamping — C16's subject — is not involved).
+func InexactF4(count int, r *rand.Rand) *Node {
+	n := &Node{Kind: 'F', W: 4, Uints: make([]uint64, count), F64: make([]float64, count)}
+	for i := range n.F64 {
+		var v float64
+		switch r.Intn(4) {
+		case 0:
+			v = []float64{0.1, -0.1, 1.0 / 3, 2.0 / 3, math.Pi, -math.E, 1e-40, 1e38, 16777217, 1e-46, 0.30000000000000004}[r.Intn(11)]
+		case 1:
+			v = (r.Float64()*2 - 1) * math.Pow(10, float64(r.Intn(70)-35))
+		case 2: // just beside a binary32 value: ties and near-ties
+			f := math.Float32frombits(r.Uint32()&0x7f7fffff | uint32(r.Intn(2))<<31)
+			v = math.Nextafter(float64(f), float64(f)*2)
+		default:
+			v = r.NormFloat64() * 1000
+		}
+		if math.IsInf(v, 0) || math.IsNaN(v) || math.Abs(v) > math.MaxFloat32 {
+			v = 0.1
+		}
+		n.F64[i] = v
+		n.Uints[i] = uint64(math.Float32bits(float32(v)))
+	}
+	return n
+}
+
 // GenLeaf makes a "#seed,count" leaf (expanded identically by the OCaml driver).
 func GenLeaf(kind, w, count int, r *rand.Rand) *Node {
 	n := &Node{Kind: byte(kind), W: w, Seed: r.Uint64() >> 1}
@@ -158,6 +184,9 @@ func RandLeaf(r *rand.Rand) *Node {
 	default:
 		w := max(k[1], 1)
 		c = 255/w - 1 + r.Intn(3)
+	}
+	if k[0] == 'F' && k[1] == 4 && c > 0 && r.Intn(3) == 0 {
+		return InexactF4(c, r)
 	}
 	return Leaf(k[0], k[1], c, r)
 }
